@@ -112,6 +112,50 @@ def mkEq (isDict : Bool) (reac prod inactReac inactProd : List (String × Int)) 
   let ip ← toStoich inactProd
   construct isDict r p K ir ip
 
+/-! #### the constructor's `checks` / `dont_check` arguments and the `check_*(throw=False)` methods -/
+
+/-- `d.get(k, 0)` on the coefficients as given by the caller (any sign) -/
+def getI (l : List (String × Int)) (k : String) : Int :=
+  match l.lookup k with
+  | some v => v
+  | none => 0
+
+/-- `check_all_positive(throw=False)`: no coefficient `< 0` in any of the four containers (0 is accepted) -/
+def rawAllPositive (reac prod inactReac inactProd : List (String × Int)) : Bool :=
+  (reac ++ prod ++ inactReac ++ inactProd).all (fun kv => decide (0 ≤ kv.2))
+
+/-- `check_any_effect(throw=False)`: `any(self.net_stoich(self.keys()))` on the coefficients as given -/
+def rawAnyEffect (reac prod inactReac inactProd : List (String × Int)) : Bool :=
+  ((reac ++ prod ++ inactReac ++ inactProd).map (·.1)).any
+    (fun k => getI prod k - getI reac k + getI inactProd k - getI inactReac k != 0)
+
+def defaultChecks : List String := ["any_effect", "all_positive", "all_integral", "consistent_units"]
+
+/-- `default_checks ^ (dont_check or set())` (symmetric difference of sets) -/
+def symmDiff (a b : List String) : List String :=
+  a.filter (fun x => !b.contains x) ++ b.filter (fun x => !a.contains x)
+
+/-- `Reaction.__init__` with its `checks` / `dont_check` arguments (l. 468-495):
+    both given → `ValueError`; `checks is None` → `default_checks ^ dont_check`; each name `c` runs `getattr(self, "check_" + c)(throw=True)`
+    (unknown name → `AttributeError`); `all_integral` and `consistent_units` cannot fail for integer coefficients without units.
+    The checks run in set-iteration order, so an input that fails two different ways is outside what is compared.
+    A negative coefficient that is not checked would have to be stored; the model's containers hold naturals, so that input is
+    reported as unrepresentable (`!negative-unchecked`) and not generated. -/
+def mkEqChecks (isDict : Bool) (reac prod inactReac inactProd : List (String × Int)) (K : Option α)
+    (checks dontCheck : Option (List String)) : Except String (Equil α) :=
+  if checks.isSome && dontCheck.isSome then .error "ValueError" else
+  let names : List String := match checks with
+    | some c => c
+    | none => symmDiff defaultChecks (match dontCheck with | some d => d | none => [])
+  if names.any (fun c => !defaultChecks.contains c) then .error "AttributeError"
+  else if names.contains "all_positive" && !rawAllPositive reac prod inactReac inactProd then .error "ValueError"
+  else if !rawAllPositive reac prod inactReac inactProd then .error "!negative-unchecked"
+  else
+    let nat (l : List (String × Int)) : Stoich := l.map (fun kv => (kv.1, kv.2.toNat))
+    let e : Equil α := ⟨initStoich isDict (nat reac), initStoich isDict (nat prod),
+      initStoich isDict (nat inactReac), initStoich isDict (nat inactProd), K⟩
+    if names.contains "any_effect" && !e.anyEffect then .error "ValueError" else .ok e
+
 /-- `other * ArithmeticDict(int, d)` for a scalar: `for k in d1: d1[k] *= d2` (arithmeticdict.py `_imul`) -/
 def scale (m : Nat) (l : Stoich) : Stoich := l.map (fun kv => (kv.1, kv.2 * m))
 
@@ -148,6 +192,14 @@ def rmul (n : Int) (e : Equil α) : Except String (Equil α) := do
   let inactProd := scale m e.inactProd
   if n < 0 then construct true prod reac param inactProd inactReac
   else construct true reac prod param inactReac inactProd
+
+/-- `n * e` / `e * n` as Python dispatches it: a multiplier that is not integral (`other.is_integer` missing and not an
+    `int`, or falsy: `str`, `None`, `complex`, `Decimal`, a mapping, a non-integer sympy number) makes `__rmul__` return
+    `NotImplemented` (l. 1192-1197), which Python turns into `TypeError`; `none` stands for such a multiplier -/
+def rmulPy (m : Option Int) (e : Equil α) : Except String (Equil α) :=
+  match m with
+  | none => .error "TypeError"
+  | some n => rmul n e
 
 /-- `Equilibrium.__neg__`: `-1 * self` -/
 def neg (e : Equil α) : Except String (Equil α) := rmul (-1) e
@@ -368,5 +420,11 @@ def asReactions [Mul α] [Inv α] [Div α] [NatCast α] [DecidableEq α]
     pure ({ reac := e.reac, prod := e.prod, inactReac := e.inactReac, inactProd := e.inactProd, k := kf' },
           { reac := e.prod, prod := e.reac, inactReac := e.inactProd, inactProd := e.inactReac, k := kb' })
   else .error "ValueError"
+
+/-- `as_reactions` including its first refusal (l. 1073-1075): without `units`, a rate constant that carries units
+    (`hasattr(kf, "units") or hasattr(kb, "units")`) → `ValueError("units missing")` before anything else is looked at -/
+def asReactionsPy [Mul α] [Inv α] [Div α] [NatCast α] [DecidableEq α]
+    (e : Equil α) (kf kb : Option α) (unitsGiven rateHasUnits : Bool) (c0 : α) : Except String (Rxn α × Rxn α) :=
+  if !unitsGiven && rateHasUnits then .error "ValueError" else asReactions e kf kb c0
 
 end ChemModel.Equilibria
